@@ -21,10 +21,10 @@ import (
 )
 
 type c17Sig struct {
-	Ctor   string `json:"ctor"`   // hand | files | keyring
-	Entity string `json:"entity"` // hand: "" A B; files: key file A B garbage; keyring: the id
-	Ring   string `json:"ring"`   // empty signer other both rev garbage (signer = {A}, other = {B}, rev = B before A)
-	Signer string `json:"signer"` // A: the case's provenance; B: the same archive signed by the other key
+	Ctor   string `json:"ctor"`           // hand | files | keyring
+	Entity string `json:"entity"`         // hand: "" A B; files: key file A B garbage; keyring: the id
+	Ring   string `json:"ring"`           // empty signer other both rev garbage (signer = {A}, other = {B}, rev = B before A)
+	Signer string `json:"signer"`         // A: the case's provenance; B: the same archive signed by the other key
 	Evil   bool   `json:"evil,omitempty"` // the archive is the other archive of the same name
 }
 
@@ -225,7 +225,7 @@ func c17SigOracle(c *c17Case, sigs []c17SigRes, flag func(sig, what string)) {
 		if !r.Res.OK && want {
 			flag("rejected-valid-provenance-signatory-"+g.Ctor, desc+": Signatory.Verify rejected a pair signed by a key of the KeyRing")
 		}
-		if r.Res.OK && r.Res.Hash != wantHash {
+		if r.Res.OK && want && r.Res.Hash != wantHash {
 			flag("wrong-filehash", desc+": FileHash "+r.Res.Hash+" is not sha256 of the archive")
 		}
 	}
